@@ -9,10 +9,13 @@ package ctreeprop
 // are practically never entered there. A burst case is a small scenario
 //
 //	setup   a few sequential operations that bring a fresh tree into a state
-//	        (fresh, emptied again, nil leaf / leaf / branch at the focus node, random)
+//	        (fresh, emptied again, nil leaf / leaf / branch at the focus node, random;
+//	        or populated: 3-10 leaves spread over several branches)
 //	racers  2..4 goroutines with 1..3 operations each, addressed relative to one
 //	        focus node (at it, through it, above it, next to it), the empty path,
-//	        nil values and deletes of everything included
+//	        nil values and deletes of everything included; on a populated tree one
+//	        racer starts with a subtree / glob delete of many leaves and another with
+//	        a Query / Walk / WalkSorted of the same region (genBurstPopulated)
 //	aligned whether the racers are released together by a spinning start barrier
 //
 // that is executed Reps times, every time on a fresh tree and on the real
@@ -26,7 +29,9 @@ package ctreeprop
 //	    operations, run on a fresh tree from one goroutine, reproduces every
 //	    result and the final content;
 //	(3) all goroutines join (structural deadlock test) and, when built with
-//	    -race, no race report.
+//	    -race, no race report;
+//	(4) the model-free clauses of c10_rdatomic_test.go (foreign values, a delete is
+//	    atomic for readers, WalkSorted order), for every history, nil or not.
 //
 // All verdicts are schedule independent; the schedule only decides whether a
 // window is hit. A failing case carries the recorded history of the failing
